@@ -1,5 +1,6 @@
 """C10 — networked cache with local L1 never serves data another node replaced (structural clauses)."""
 from vlib import build, model, q, lockset
+from vlib.lin import Lin
 from vlib.build import AnalysisBroken, REPO
 from rules.C05 import load
 
@@ -134,15 +135,30 @@ def run(ctx):
         g = [i for i in f.calls() if f.bcallee(i) == 'cppcms::impl::tcp_connector::get']
         ctx.check(len(g) == 1 and f.ref_of(f.args(g[0])[0]) == q.param_by_index(f, 0), R2, 'tcp_cache::%s:server-selected-by-key' % name, 'server is not selected by the key', f.where)
     bc = P.fn('cppcms::impl::tcp_connector::broadcast')
-    lp = [L for L in q.loops(bc) if bc.N(L)['k'] == 'ForStmt']
+    lp = [L for L in q.loops(bc) if [i for i in bc.calls(bc.N(L)['body']) if q.short_of(bc.callee(i)) == 'transmit']]
     ok = len(lp) == 1
     if ok:
+        # index loop 0..conns over tcp[i], or pointer loop tcp..tcp+conns: the number of steps is `conns`, every step transmits on the current element
+        from vlib import lin as _lin
+        cl = q.counting_loop(bc, lp[0])
         L = bc.N(lp[0])
-        cond = bc.N(bc.strip(L['cond']))
-        init = bc.N(bc.strip(L['init']))
-        ok = cond['k'] == 'BinaryOperator' and cond.get('op') == '<' and any(model.strip_targs(x).endswith('tcp_connector::conns') for x in bc.subtree_refs(cond['ch'][1])) and \
-            init.get('op') == '=' and bc.const_value(init['ch'][1]) == 0 and len([i for i in bc.calls(L['body']) if q.short_of(bc.callee(i)) == 'transmit']) == 1 and \
-            not [j for j in bc.walk(L['body']) if bc.N(j)['k'] in ('BreakStmt', 'ReturnStmt', 'ContinueStmt')]
+        ok = cl is not None and cl['step'] == 1 and cl['op'] in ('<', '!=')
+        if ok:
+            env = {}
+            for _ in range(2):
+                S0 = _lin.Symb(bc, env)
+                for i_ in bc.all_nodes():
+                    if bc.N(i_)['k'] == 'DeclStmt':
+                        for d in bc.N(i_)['decls']:
+                            if d.get('init') is not None and d['ref'] != cl['var'] and len(bc.defs_of_var(d['ref'])) == 1:
+                                env[d['ref']] = S0.lin(d['init'])
+            S = _lin.Symb(bc, env)
+            span = S.lin(cl['bound']) - S.lin(cl['start_node'])
+            conns_atoms = [a_ for a_ in span.atoms() if model.strip_targs(a_).endswith('tcp_connector::conns')]
+            ok = len(conns_atoms) == 1 and (span - Lin.atom(conns_atoms[0])).key() == Lin.const(0).key()
+            tr = [i for i in bc.calls(L['body']) if q.short_of(bc.callee(i)) == 'transmit']
+            ok = ok and len(tr) == 1 and cl['var'] in bc.subtree_refs(bc.obj(tr[0])) and \
+                not [j for j in bc.walk(L['body']) if bc.N(j)['k'] in ('BreakStmt', 'ReturnStmt', 'ContinueStmt')]
     ctx.check(ok, R2, 'broadcast:all-connections', 'broadcast does not reach every connection', bc.where)
     hs = P.fn('cppcms::impl::tcp_connector::hash')
     refs = set(model.strip_targs(x) for x in hs.subtree_refs(hs.body) if x.startswith(('f:', 'g:')))
